@@ -126,13 +126,13 @@ func FindUniverse(prop, tier, name string) (*Universe, error) {
 }
 
 func ConfigFor(prop, tier string) Config {
-	c := Config{Tier: tier, RawVariants: 4, Poison: true, Warm: true, MaxStates: 400000}
+	c := Config{Tier: tier, RawVariants: 4, Poison: true, Warm: true, Drain: true, MaxStates: 400000}
 	if tier == "thorough" {
 		c.RawVariants = 16
 		c.MaxStates = 3000000
 	}
 	if prop == "C18" {
-		c.GC, c.Poison, c.Warm, c.RawVariants = true, false, false, 1
+		c.GC, c.Poison, c.Warm, c.Drain, c.RawVariants = true, false, false, false, 1
 	}
 	return c
 }
